@@ -102,14 +102,21 @@ def frames_for(starts, ends, strand, f0=0):
     return [names[f] for f in frames]
 
 
-def gen_qualifiers(rng, max_keys=3, keys=None, vals=None, p_none=0.35):
+EXPORT_KEYS = ["transcript_id", "transcript_name", "transcript_biotype", "protein_id", "product", "gene_id", "gene_name",
+               "gene_biotype", "feature_id", "feature_name", "feature_type", "locus_tag", "feature_collection_name",
+               "feature_collection_id"]
+
+
+def gen_qualifiers(rng, max_keys=3, keys=None, vals=None, p_none=0.35, collide_p=0.12):
+    """collide_p: probability that a key is one of the names the exporters also derive from attributes (a legal
+    free-form qualifier whose key collides with an export key)."""
     if rng.random() < p_none:
         return None
     keys = keys or QUAL_KEYS_PLAIN
     vals = vals or QUAL_VALS_PLAIN
     q = {}
     for _ in range(rng.randint(1, max_keys)):
-        k = rng.choice(keys)
+        k = rng.choice(EXPORT_KEYS) if rng.random() < collide_p else rng.choice(keys)
         nv = rng.randint(1, 3)
         vs = []
         for _ in range(nv):
